@@ -264,8 +264,13 @@ def check_c13(run):
                 run.replay(o, "serve:deadlock:%dw%s" % (nw, "+bg" if bg else ""), "deadlock while a reply is outstanding; schedule: %s" % (sched[-12:],),
                            replay_script("C13", prog, model, sched, extra=EXTRA_C13))
                 return
-            r2, m2 = bmc.check(model.all_done, at="any", timeout_ms=600000)
-            o.reach = "all waiters return with their own reply on some schedule: %s" % r2
+            if nw == 1:
+                r2, m2 = bmc.check(model.all_done, at="any", timeout_ms=600000)
+                o.reach = "all waiters return with their own reply on some schedule: %s" % r2
+            else:
+                # two complete hand-offs do not fit into the step bound under the pre-emption bound: the twin asks for one
+                r2, m2 = bmc.check(lambda S: z3.Or(*[z3.And(S.v["depth%d" % t] == 0, S.v["ready%d" % (t + 1)]) for t in range(nw)]), at="any", timeout_ms=900000)
+                o.reach = "some waiter returns with its own reply on some schedule: %s" % r2
             if r2 != "sat":
                 raise HarnessError("reachability twin failed: %s" % r2)
         return ob
